@@ -292,6 +292,7 @@ int mzd_to_png(const mzd_t *A, const char *fn, int compression_level, const char
     png_write_row(png_ptr, row);
   }
   m4ri_mm_free(row);
+  row = NULL; /* png_write_end() can still fail: the error path above must not release it again */
 
   png_write_end(png_ptr, info_ptr);
   png_destroy_write_struct(&png_ptr, &info_ptr);
